@@ -91,3 +91,29 @@ package canary
 //@   ensures @found [S] result >= 0 ==> result < len(xs) && xs[result] == 0
 //@   ensures @none [S] result < 0 ==> (forall j :: 0 <= j && j < len(xs) ==> xs[j] != 0)
 //@   ensures @wrong [S] result < 0
+
+//@ func bump
+//@   tags S
+//@   requires c.n > 0 && c.n < 1000
+//@   modifies *c
+//@   ensures @pos [S] c.n > 0
+
+//@ func PreFromPost
+//@   tags S
+//@   safety S
+
+//@ func MakeNegative
+//@   tags S
+//@   safety S
+
+//@ func NilBranch
+//@   tags S
+//@   safety S
+
+//@ func FrameHole
+//@   tags S
+//@   safety S
+//@   modifies *a
+
+//@ struct canary.wire [S] A B
+//@ struct canary.wire [S] A
